@@ -431,7 +431,7 @@ func (g *c11Gen) genFieldItem(lex *c11Obj) *c11Item {
 				it.fields = append(it.fields, c11Field{kind: 4, conn: conn})
 				g.feat["field_connection_name"]++
 			} else {
-				connB, conn, hasConn = r.Bytes(r.Range(0, 40)), nil, true
+				connB, conn, hasConn = r.Bytes(r.PickInt([]int{r.Range(0, 40), r.Range(0, 40), r.Range(0, 40), r.Range(250, 400)})), nil, true
 				it.fields = append(it.fields, c11Field{kind: 5, connB: connB})
 				g.feat["field_connection_buffer"]++
 			}
